@@ -107,26 +107,33 @@ def register_pruning(reg):
     box = '(0, segment_img.shape[0]), (0, segment_img.shape[1])'
     inslc = ('i >= slc[0].start and i < slc[0].stop and j >= slc[1].start and j < slc[1].stop')
     cnt = 'np.count_nonzero(old_segment_img[slc] == label)'
+    kept = 'len(segm_labels) == 1'
     reg.add(Contract(
         target=D + '_detect_sources', props=['C04', 'C06'], tag='pruning-one-component',
-        block=('cutout', 'cutout'),
+        block=('cutout', 'segm_slices'),
         params={'segment_img': ('arr', 2, 'int', 'nonempty'), 'slc': 'slice2', 'label': 'int',
-                'npixels': 'pos'},
+                'npixels': 'pos', 'segm_labels': ('const', []), 'segm_slices': ('const', [])},
         requires=pre,
         ensures=[
-            ('dropped-iff-fewer-than-npixels-pixels-carry-the-label',
-             f'iff(leaves_by_continue, {cnt} < npixels)'),
+            ('kept-iff-at-least-npixels-pixels-carry-the-label',
+             f'len(segm_labels) <= 1 and len(segm_slices) == len(segm_labels) and '
+             f'iff({kept}, {cnt} >= npixels)'),
+            ('a-kept-component-is-recorded-with-its-own-label-and-slices',
+             f'implies({kept}, segm_labels[0] == label and segm_slices[0][0].start == slc[0].start '
+             'and segm_slices[0][0].stop == slc[0].stop and segm_slices[0][1].start == slc[1].start '
+             'and segm_slices[0][1].stop == slc[1].stop)'),
             ('a-dropped-component-is-zeroed-and-nothing-else-changes',
-             f'implies(leaves_by_continue, forall(lambda i, j: segment_img_input[i, j] == '
+             f'implies(not ({kept}), forall(lambda i, j: segment_img_input[i, j] == '
              f'ite(({inslc}) and old_segment_img[i, j] == label, 0, old_segment_img[i, j]), {box}))'),
             ('a-kept-component-leaves-the-image-as-it-was',
-             f'implies(not leaves_by_continue, forall(lambda i, j: segment_img_input[i, j] == '
+             f'implies({kept}, forall(lambda i, j: segment_img_input[i, j] == '
              f'old_segment_img[i, j], {box}))'),
         ],
         mutants=[('if np.count_nonzero(segment_mask) < npixels:', 'if np.count_nonzero(segment_mask) <= npixels:'),
                  ('segment_mask = (cutout == label)', 'segment_mask = (cutout >= label)'),
                  ('cutout[segment_mask] = 0', 'cutout[segment_mask] = label'),
-                 ('if np.count_nonzero(segment_mask) < npixels:', 'if np.count_nonzero(cutout) < npixels:')],
+                 ('if np.count_nonzero(segment_mask) < npixels:', 'if np.count_nonzero(cutout) < npixels:'),
+                 ('segm_labels.append(label)', 'segm_labels.append(label + 1)')],
     ))
     register_relabel(reg)
 
